@@ -37,14 +37,15 @@ type wireCase struct {
 }
 
 type c10env struct {
-	scheme    string
-	cache     bool
-	primedPre obj
-	fetchable *hotstuff.Block
-	n, q      int
-	nodes     []*hx.Node
-	r         *hx.Node // replica under test (id 2)
-	svc       interface {
+	scheme     string
+	kauriPhase string
+	cache      bool
+	primedPre  obj
+	fetchable  *hotstuff.Block
+	n, q       int
+	nodes      []*hx.Node
+	r          *hx.Node // replica under test (id 2)
+	svc        interface {
 		Propose(gorums.ServerCtx, *hotstuffpb.Proposal)
 		Vote(gorums.ServerCtx, *hotstuffpb.PartialCert)
 		NewView(gorums.ServerCtx, *hotstuffpb.SyncInfo)
@@ -79,7 +80,9 @@ func ctxFrom(id int) gorums.ServerCtx {
 	return gorums.ServerCtx{Context: ctx}
 }
 
-func newC10Env(scheme string, cache bool, state string, rng *rand.Rand, kauri bool, agg bool) (*c10env, error) {
+// kauriPhase (Kauri only): "round" -- the node is in its first aggregation round; "fresh" -- it has not started; "waiting" -- it has
+// started, but its first round is still waiting for the connection event
+func newC10Env(scheme string, cache bool, state string, rng *rand.Rand, kauri bool, agg bool, kauriPhase string) (*c10env, error) {
 	const n = 4
 	opts := []core.RuntimeOption{}
 	ruleset := "chainedhotstuff"
@@ -109,10 +112,13 @@ func newC10Env(scheme string, cache bool, state string, rng *rand.Rand, kauri bo
 	}
 	srv := server.NewServer(e.r.EL, hx.Quiet{}, e.r.Cfg, e.r.BC)
 	e.svc = server.VerifService(srv)
-	if kauri {
+	e.kauriPhase = kauriPhase
+	if kauri && kauriPhase == "round" {
 		e.r.Deliver(hotstuff.ReplicaConnectedEvent{}) // Kauri builds its tree on this event; without it no aggregation round starts
 	}
-	e.r.Start()
+	if !kauri || kauriPhase != "fresh" {
+		e.r.Start()
+	}
 	// a block every replica knows, certified by a quorum
 	g := hotstuff.GetGenesis()
 	e.known = hotstuff.NewBlock(g.Hash(), hotstuff.NewQuorumCert(nil, 0, g.Hash()), &clientpb.Batch{Commands: []*clientpb.Command{{ClientID: 3, SequenceNumber: 1}}}, 1, 2)
@@ -547,7 +553,7 @@ func c10(args []string) error {
 			idx = append(idx, list...)
 		}
 		var env *c10env
-		sinceNew := 0
+		sinceNew, kauriEnvs := 0, 0
 		for k, i := range idx {
 			c := cs[i]
 			kauri := c.M["rpc"].(string) == "contribution"
@@ -556,16 +562,21 @@ func c10(args []string) error {
 				state = "advanced" // the only state in which a proposal can get past the first checks of the voter: half of them meet it
 			}
 			// a fresh replica regularly, after a panic, and when the communication scheme has to change
-			if env == nil || sinceNew > 150 || env.state != state || kauri != (env.r.Kauri != nil) {
+			if env == nil || sinceNew > 150 || env.state != state || kauri != (env.r.Kauri != nil) || (kauri && sinceNew > 40) {
 				if env != nil {
 					env.r.Stop()
 				}
-				env, err = newC10Env(scheme, cacheOn == 1, state, rng, kauri, aggOn == 1 && !kauri)
+				phase := "round"
+				if kauri {
+					phase = []string{"round", "fresh", "round", "waiting"}[kauriEnvs%4]
+					kauriEnvs++
+				}
+				env, err = newC10Env(scheme, cacheOn == 1, state, rng, kauri, aggOn == 1 && !kauri, phase)
 				if err != nil {
 					return err
 				}
 				sinceNew = 0
-				if kauri && env.r.Kauri.VerifView() == 0 {
+				if kauri && phase == "round" && env.r.Kauri.VerifView() == 0 {
 					return fmt.Errorf("c10: the Kauri node is not in an aggregation round (the contribution cases would be vacuous)")
 				}
 			}
@@ -590,7 +601,7 @@ func c10(args []string) error {
 				"panic": pan, "changed": changed, "case": c.M, "pre": pre, "post": post}
 			if kauri && pan == "" {
 				// (non-vacuity of the Kauri part: the round the node is in and what it has aggregated so far)
-				line["kauriView"], line["kauriAgg"] = int(env.r.Kauri.VerifView()), len(env.r.Kauri.VerifAgg())
+				line["kauriView"], line["kauriAgg"], line["kauriPhase"] = int(env.r.Kauri.VerifView()), len(env.r.Kauri.VerifAgg()), env.kauriPhase
 			}
 			o.emit(line)
 			if pan != "" {
